@@ -1,7 +1,7 @@
 SPECIFICATION GSpec
 CONSTANTS
   Kinds = {"small"}
-  Times = {1, 2, 17, 61}
+  Times = {1, 4, 8, 17, 61}
   Start = 1
   ChkSet = {FALSE}
   GenDepth = 5
